@@ -803,7 +803,8 @@ def unify(s: Type | Const, t: Type | Const, subst: "Subst | None") -> "Subst | N
             if len(s.inputs) != len(t.inputs):
                 return None
             for a, b in zip(s.inputs, t.inputs, strict=True):
-                if a.ty.linear and b.ty.linear and a.flags != b.flags:
+                # Ownership annotations matter for every type that is not copyable
+                if not a.ty.copyable and not b.ty.copyable and a.flags != b.flags:
                     return None
             return _unify_args(s, t, subst)
         case TupleType() as s, TupleType() as t:
